@@ -26,6 +26,8 @@ var c14Toggles = []string{
 	"ie-no-title", "ie-copyright", "ie-byline", "ie-dateline", "ie-displaydate", "ie-publisher", "ie-figure", "ie-metas-in-body", "sc-rel-author-empty-first",
 	// OpenGraph namespace declarations under non-default names
 	"og-prefix-attr-html", "og-prefix-attr-head", "og-xmlns",
+	// schema.org values given as text in elements whose value normally lives in an attribute
+	"sc-author-a-text", "sc-publisher-data-text",
 }
 
 var c14Orders = [][3]string{{"og", "sc", "ie"}, {"og", "ie", "sc"}, {"sc", "og", "ie"}, {"sc", "ie", "og"}, {"ie", "og", "sc"}, {"ie", "sc", "og"}}
@@ -140,6 +142,13 @@ func c14Doc(cf *c14Cfg) string {
 			}
 			if on("sc-author") {
 				sb.WriteString("<span itemprop=\"author\">SCauthor" + suffix + "</span>")
+			}
+			if on("sc-author-a-text") {
+				// an element whose value normally lives in an attribute (href), given as text only
+				sb.WriteString("<a itemprop=\"author\">SCauthorA" + suffix + "</a>")
+			}
+			if on("sc-publisher-data-text") {
+				sb.WriteString("<data itemprop=\"publisher\">SCpublisherD" + suffix + "</data>")
 			}
 			if on("sc-author-person") {
 				sb.WriteString("<div itemprop=\"author\" itemscope itemtype=\"http://schema.org/Person\"><span itemprop=\"name\">SCpersonname" + suffix + "</span></div>")
@@ -397,6 +406,8 @@ func c14Check(c *eng.Case) *eng.Outcome {
 		add("Publisher", "sc", "SCholder", item && on("sc-holder") && !on("sc-publisher") && !on("sc-publisher-org"))
 		add("Author", "sc", "SCauthor", item && on("sc-author"))
 		add("Author", "sc", "SCpersonname", item && on("sc-author-person"))
+		add("Author", "sc", "SCauthorA", item && on("sc-author-a-text"))
+		add("Publisher", "sc", "SCpublisherD", item && on("sc-publisher-data-text"))
 		add("Author", "sc", "SCrelauthor", on("sc-rel-author") && !(item && (on("sc-author") || on("sc-author-person"))))
 		add("Title", "ie", "IEtitle", !on("ie-no-title"))
 		add("Publisher", "ie", "IEpublisher", on("ie-publisher"))
@@ -510,7 +521,7 @@ func init() {
 	eng.Register(&eng.Prop{
 		ID:        "C14",
 		DesignRef: "§5 C14",
-		Rule: "base page with all three sources (qualified OpenGraph article, schema.org Article item with headline, IE tags with title); every set of <= 3 (quick) / <= 4 (thorough) of 44 feature toggles (OpenGraph namespaces declared under other names by a prefix attribute on html or on head or by legacy xmlns attributes; drop a required OG property, OG type profile/website, OG optional/article/profile properties, second image, an article property placed before og:type; schema.org item absent, name/url/description/image/publisher string|Organization/author string|Person/rel=author/date/section/copyright year+holder/ImageObject/second item; IE title absent, copyright, byline, dateline, displaydate, publisher attribute, captioned figure, the IE and opt-out meta tags placed in <body>; an empty rel=author element before the real one), " +
+		Rule: "base page with all three sources (qualified OpenGraph article, schema.org Article item with headline, IE tags with title); every set of <= 3 (quick) / <= 4 (thorough) of 46 feature toggles (schema.org values given as the text of an <a> without href or a <data> without value; OpenGraph namespaces declared under other names by a prefix attribute on html or on head or by legacy xmlns attributes; drop a required OG property, OG type profile/website, OG optional/article/profile properties, second image, an article property placed before og:type; schema.org item absent, name/url/description/image/publisher string|Organization/author string|Person/rel=author/date/section/copyright year+holder/ImageObject/second item; IE title absent, copyright, byline, dateline, displaydate, publisher attribute, captioned figure, the IE and opt-out meta tags placed in <body>; an empty rel=author element before the real one), " +
 			"with all 6 block orders x opt-out {absent,true,false} for sets of <= 2 (quick) / <= 3 (thorough) toggles and 2 orders otherwise; every value is a token naming source and field. Oracle: opt-out => zero MarkupInfo; otherwise each scalar field = first non-empty of the values the sources yield alone (4 executions per case: full, OG only, schema.org only, IE only), Images wholesale from the first non-empty source, Article wholesale from the first source that has a record, an unqualified OpenGraph block yields nothing, and - directly from the tokens - each scalar field holds the token of the highest-precedence source whose markup offers it (judged when no source offers the field in two ways). " +
 			"Non-trivial = two sources supply different values for a field (or two have an article record), or OpenGraph is disqualified.",
 		Enumerate: c14Enumerate,
